@@ -28,6 +28,10 @@ pub fn ct_add(x: u32) -> u32 {
     black_box(x) + 1
 }
 #[inline(never)]
+pub fn ct_add2(x: u32) -> u32 {
+    black_box(x) + 3
+}
+#[inline(never)]
 pub fn ct_unit(x: u32) {
     UNIT_SINK.fetch_add(black_box(x) as usize, Ordering::SeqCst);
 }
@@ -90,6 +94,18 @@ pub struct CLifetime {
     /// argument of each call; < 100 matches the `when` of sites a and d
     pub calls: Vec<u32>,
     pub exit_panic: bool,
+    /// the same expression evaluated and installed a second time inside this lifetime (a loop body,
+    /// a set-up helper called twice), followed by more calls
+    #[serde(default)]
+    pub second: Option<CSecond>,
+}
+
+#[derive(Serialize, Deserialize, Clone, Debug, PartialEq)]
+pub struct CSecond {
+    pub n: usize,
+    pub calls: Vec<u32>,
+    /// install on `ct_add2` instead of the function faked first (sites a, b, e)
+    pub other: bool,
 }
 
 #[derive(Serialize, Deserialize, Clone, Debug, PartialEq)]
@@ -114,8 +130,8 @@ pub fn generate(profile: &str, seed: u64, index: u64) -> CountScenario {
     let n_l = if profile == "C07" { 2 + rng.below(5) as usize } else { 1 + rng.below(3) as usize };
     let mut classes = vec![format!("site-{site}")];
     let mut lifetimes = Vec::new();
-    for _ in 0..n_l {
-        let n = rng.below(7) as usize;
+    let has_when = site == "a" || site == "d";
+    let gen_calls = |rng: &mut Rng, n: usize| -> (Vec<u32>, usize, usize) {
         let k = rng.below(n as u64 + 3) as usize;
         let mut calls: Vec<u32> = (0..k).map(|_| rng.below(100) as u32).collect();
         if site == "e" {
@@ -127,16 +143,31 @@ pub fn generate(profile: &str, seed: u64, index: u64) -> CountScenario {
             }
         }
         let nm = rng.below(4) as usize;
-        let has_when = site == "a" || site == "d";
         if has_when {
             for _ in 0..nm {
                 let pos = rng.below(calls.len() as u64 + 1) as usize;
                 calls.insert(pos, 100 + rng.below(1000) as u32);
             }
         }
+        (calls, k, if has_when { nm } else { 0 })
+    };
+    for _ in 0..n_l {
+        let n = rng.below(7) as usize;
+        let (calls, k, nm) = gen_calls(&mut rng, n);
         let exit_panic = rng.chance(1, 5);
-        classes.push(format!("N{}-m{}-rej{}-{}", n, k.min(9), if has_when { nm } else { 0 }, if exit_panic { "unwind" } else { "drop" }));
-        lifetimes.push(CLifetime { n, calls, exit_panic });
+        // a quarter of the lifetimes evaluate the expression a second time (same N: the same set-up
+        // code; or another N) and install the result again
+        let second = if rng.chance(1, 4) {
+            let n2 = if rng.chance(2, 3) { n } else { rng.below(7) as usize };
+            let (calls2, k2, _) = gen_calls(&mut rng, n2);
+            let other = matches!(site.as_str(), "a" | "b" | "e") && rng.chance(1, 2);
+            classes.push(format!("again-N{}-m{}-{}", n2, k2.min(9), if other { "other-function" } else { "same-function" }));
+            Some(CSecond { n: n2, calls: calls2, other })
+        } else {
+            None
+        };
+        classes.push(format!("N{}-m{}-rej{}-{}", n, k.min(9), nm, if exit_panic { "unwind" } else { "drop" }));
+        lifetimes.push(CLifetime { n, calls, exit_panic, second });
     }
     classes.sort();
     classes.dedup();
@@ -188,6 +219,8 @@ pub fn execute(sc: &CountScenario, sh: &Shared) -> Value {
     // in the C07 profile the verdict of a lifetime must depend on that lifetime's calls only
     let count_prop: &[&str] = if sc.zero_counter { &["C06"] } else { &["C06", "C07"] };
     let count_prop7: &[&str] = if sc.zero_counter { &["C06"] } else { &["C07"] };
+    let mut second_installs = 0u64;
+    let mut exit_not_judged = 0u64;
     for (li, lt) in sc.lifetimes.iter().enumerate() {
         sh.note(PH_OTHER, li as u64, 0, 0);
         let nstat = match sc.site.as_str() {
@@ -197,103 +230,148 @@ pub fn execute(sc: &CountScenario, sh: &Shared) -> Value {
             "e" => &N_E,
             _ => &N_D,
         };
-        nstat.store(lt.n, Ordering::SeqCst);
-        let pair = match sc.site.as_str() {
-            "a" => site_a(),
-            "b" => site_b(),
-            "c" => site_c(),
-            "e" => site_e(),
-            _ => site_d(),
-        };
-        if sc.zero_counter {
-            if let CallCountVerifier::WithCount { counter, .. } = &pair.1 {
-                counter.store(0, Ordering::SeqCst);
+        let mut inj = InjectorPP::new();
+        // stage 0: the installation of this lifetime; stage 1 (optional): the same expression
+        // evaluated and installed again
+        let mut stages: Vec<(usize, &Vec<u32>, bool)> = vec![(lt.n, &lt.calls, false)];
+        if let Some(sec) = &lt.second {
+            stages.push((sec.n, &sec.calls, sec.other));
+        }
+        let mut m = 0usize; // matching calls so far in the CURRENT installation
+        let mut m_first = 0usize;
+        let mut n_now = lt.n;
+        let mut broke = false;
+        for (si, (n_stage, calls, other)) in stages.iter().enumerate() {
+            let other = *other;
+            if si == 1 {
+                m_first = m;
+                second_installs += 1;
+            }
+            n_now = *n_stage;
+            nstat.store(n_now, Ordering::SeqCst);
+            let pair = match sc.site.as_str() {
+                "a" => site_a(),
+                "b" => site_b(),
+                "c" => site_c(),
+                "e" => site_e(),
+                _ => site_d(),
+            };
+            if sc.zero_counter {
+                if let CallCountVerifier::WithCount { counter, .. } = &pair.1 {
+                    counter.store(0, Ordering::SeqCst);
+                }
+            }
+            let target = match sc.site.as_str() {
+                "a" | "b" | "e" if other => injectorpp::func!(fn (ct_add2)(u32) -> u32),
+                "a" | "b" | "e" => injectorpp::func!(fn (ct_add)(u32) -> u32),
+                "c" => injectorpp::func!(fn (ct_unit)(u32)),
+                _ => injectorpp::func!(fn (ct_two)(u32, &mut u32) -> u32),
+            };
+            let r = catch_unwind(AssertUnwindSafe(|| inj.when_called(target).will_execute(pair)));
+            if let Err(p) = r {
+                v("install-of-counted-fake-panicked", &["C06"], format!("lifetime {li} installation {si}: {}", panic_msg(&p)));
+                broke = true;
+                break;
+            }
+            m = 0;
+            for (ci, arg) in calls.iter().enumerate() {
+                sh.note(PH_CALL_LIVE, li as u64, ci as u64, 0);
+                let matching = !has_when || *arg < 100;
+                let sink_before = UNIT_SINK.load(Ordering::SeqCst);
+                let mut out_y = 5u32;
+                let res = catch_unwind(AssertUnwindSafe(|| match sc.site.as_str() {
+                    "a" | "b" | "e" if other => black_box(ct_add2 as fn(u32) -> u32)(*arg) as u64,
+                    "a" | "b" | "e" => black_box(ct_add as fn(u32) -> u32)(*arg) as u64,
+                    "c" => {
+                        black_box(ct_unit as fn(u32))(*arg);
+                        0
+                    }
+                    _ => black_box(ct_two as fn(u32, &mut u32) -> u32)(*arg, &mut out_y) as u64,
+                }));
+                calls_made += 1;
+                let want_val: u64 = match sc.site.as_str() {
+                    "a" => *arg as u64 + 7000,
+                    "b" => *arg as u64 + 7100,
+                    "e" => *arg as u64 + 7300,
+                    "c" => 0,
+                    _ => *arg as u64 + 7200,
+                };
+                let what = format!(
+                    "lifetime {li}{} (N={}), call {ci} with argument {arg} ({}; {} matching call(s) before it in this installation)",
+                    if si == 1 { format!(", second installation through the same expression ({} matching call(s) went to the first)", m_first) } else { String::new() },
+                    n_now,
+                    if matching { "matching" } else { "not matching `when`" },
+                    m
+                );
+                match (&res, matching) {
+                    (Ok(val), true) => {
+                        mixd(*val);
+                        if m >= n_now {
+                            v("call-beyond-budget-admitted", count_prop, format!("{what}: returned {val} although the budget of {} was already used", n_now));
+                        } else if *val != want_val {
+                            v("admitted-call-wrong-result", &["C06"], format!("{what}: returned {val}, expected {want_val}"));
+                        }
+                        if sc.site == "d" && out_y != 77 {
+                            v("assign-not-applied", &["C06"], format!("{what}: out-parameter is {out_y}, expected 77"));
+                        }
+                        if sc.site == "c" && UNIT_SINK.load(Ordering::SeqCst) != sink_before {
+                            v("original-body-ran-while-faked", &["C06"], format!("{what}: the original unit function ran"));
+                        }
+                        m += 1;
+                    }
+                    (Err(p), true) if sc.site == "e" && *arg == 55 && m < n_now && panic_msg(p).contains("boom in returns") => {
+                        // admitted, counted, and the user's own expression panicked: budget consumed
+                        mixd(3);
+                        user_panics += 1;
+                        m += 1;
+                    }
+                    (Err(p), true) => {
+                        let msg = panic_msg(p);
+                        mixd(1);
+                        if m < n_now {
+                            v("call-within-budget-rejected", count_prop7, format!("{what}: panicked with {msg:?} although only {m} of {} admitted calls were used in this installation", n_now));
+                        } else if !msg.contains("more times than expected") {
+                            v("over-call-wrong-message", &["C06"], format!("{what}: panicked with {msg:?}"));
+                        } else {
+                            over_calls += 1;
+                        }
+                        m += 1;
+                    }
+                    (Ok(val), false) => {
+                        v("non-matching-call-admitted", &["C06"], format!("{what}: returned {val} instead of panicking"));
+                    }
+                    (Err(p), false) => {
+                        let msg = panic_msg(p);
+                        mixd(2);
+                        rejected += 1;
+                        if !msg.contains("unexpected arguments") {
+                            v("rejected-call-wrong-message", &["C06"], format!("{what}: panicked with {msg:?}"));
+                        }
+                        if sc.site == "d" && out_y != 5 {
+                            v("rejected-call-had-side-effect", &["C06"], format!("{what}: out-parameter changed to {out_y}"));
+                        }
+                    }
+                }
             }
         }
-        let mut inj = InjectorPP::new();
-        let target = match sc.site.as_str() {
-            "a" | "b" | "e" => injectorpp::func!(fn (ct_add)(u32) -> u32),
-            "c" => injectorpp::func!(fn (ct_unit)(u32)),
-            _ => injectorpp::func!(fn (ct_two)(u32, &mut u32) -> u32),
-        };
-        let r = catch_unwind(AssertUnwindSafe(|| inj.when_called(target).will_execute(pair)));
-        if let Err(p) = r {
-            v("install-of-counted-fake-panicked", &["C06"], format!("lifetime {li}: {}", panic_msg(&p)));
+        if broke {
             break;
         }
-        let mut m = 0usize; // matching calls so far in THIS lifetime
-        for (ci, arg) in lt.calls.iter().enumerate() {
-            sh.note(PH_CALL_LIVE, li as u64, ci as u64, 0);
-            let matching = !has_when || *arg < 100;
-            let sink_before = UNIT_SINK.load(Ordering::SeqCst);
-            let mut out_y = 5u32;
-            let res = catch_unwind(AssertUnwindSafe(|| match sc.site.as_str() {
-                "a" | "b" | "e" => black_box(ct_add as fn(u32) -> u32)(*arg) as u64,
-                "c" => {
-                    black_box(ct_unit as fn(u32))(*arg);
-                    0
-                }
-                _ => black_box(ct_two as fn(u32, &mut u32) -> u32)(*arg, &mut out_y) as u64,
-            }));
-            calls_made += 1;
-            let want_val: u64 = match sc.site.as_str() {
-                "a" => *arg as u64 + 7000,
-                "b" => *arg as u64 + 7100,
-                "e" => *arg as u64 + 7300,
-                "c" => 0,
-                _ => *arg as u64 + 7200,
-            };
-            let what = format!("lifetime {li} (N={}), call {ci} with argument {arg} ({}; {} matching call(s) before it in this lifetime)", lt.n, if matching { "matching" } else { "not matching `when`" }, m);
-            match (&res, matching) {
-                (Ok(val), true) => {
-                    mixd(*val);
-                    if m >= lt.n {
-                        v("call-beyond-budget-admitted", count_prop, format!("{what}: returned {val} although the budget of {} was already used", lt.n));
-                    } else if *val != want_val {
-                        v("admitted-call-wrong-result", &["C06"], format!("{what}: returned {val}, expected {want_val}"));
-                    }
-                    if sc.site == "d" && out_y != 77 {
-                        v("assign-not-applied", &["C06"], format!("{what}: out-parameter is {out_y}, expected 77"));
-                    }
-                    if sc.site == "c" && UNIT_SINK.load(Ordering::SeqCst) != sink_before {
-                        v("original-body-ran-while-faked", &["C06"], format!("{what}: the original unit function ran"));
-                    }
-                    m += 1;
-                }
-                (Err(p), true) if sc.site == "e" && *arg == 55 && m < lt.n && panic_msg(p).contains("boom in returns") => {
-                    // admitted, counted, and the user's own expression panicked: budget consumed
-                    mixd(3);
-                    user_panics += 1;
-                    m += 1;
-                }
-                (Err(p), true) => {
-                    let msg = panic_msg(p);
-                    mixd(1);
-                    if m < lt.n {
-                        v("call-within-budget-rejected", count_prop7, format!("{what}: panicked with {msg:?} although only {m} of {} admitted calls were used in this lifetime", lt.n));
-                    } else if !msg.contains("more times than expected") {
-                        v("over-call-wrong-message", &["C06"], format!("{what}: panicked with {msg:?}"));
-                    } else {
-                        over_calls += 1;
-                    }
-                    m += 1;
-                }
-                (Ok(val), false) => {
-                    v("non-matching-call-admitted", &["C06"], format!("{what}: returned {val} instead of panicking"));
-                }
-                (Err(p), false) => {
-                    let msg = panic_msg(p);
-                    mixd(2);
-                    rejected += 1;
-                    if !msg.contains("unexpected arguments") {
-                        v("rejected-call-wrong-message", &["C06"], format!("{what}: panicked with {msg:?}"));
-                    }
-                    if sc.site == "d" && out_y != 5 {
-                        v("rejected-call-had-side-effect", &["C06"], format!("{what}: out-parameter changed to {out_y}"));
-                    }
-                }
+        // Two installations through one expression share one counter and leave two verifiers
+        // behind; the first verifier then judges the second installation's calls.  Whether that
+        // is what C07 wants is not for this check to decide: the scope-exit verdict is judged
+        // only where reading the statement literally (each installation against its own calls)
+        // and the shared-counter reading agree.
+        let n_last = lt.second.as_ref().map(|x| x.n).unwrap_or(lt.n);
+        let (exit_judged, expect_panic) = match &lt.second {
+            None => (true, m != lt.n),
+            Some(_) => {
+                let literal = m_first != lt.n || m != n_last;
+                let shared = m != lt.n || m != n_last;
+                (literal == shared, literal)
             }
-        }
+        };
+        let _ = n_now;
         // scope exit
         sh.note(PH_DROP, li as u64, 0, lt.exit_panic as u64);
         let before = PANICS.load(Ordering::SeqCst);
@@ -304,11 +382,13 @@ pub fn execute(sc: &CountScenario, sh: &Shared) -> Value {
             }
         }));
         let panics_here = PANICS.load(Ordering::SeqCst) - before;
-        let what = format!("lifetime {li} scope exit (N={}, {} matching call(s) in this lifetime, {})", lt.n, m, if lt.exit_panic { "already unwinding" } else { "normal drop" });
+        let what = format!("lifetime {li} scope exit (N={}, {} matching call(s) in the latest installation, {})", n_last, m, if lt.exit_panic { "already unwinding" } else { "normal drop" });
         match r {
             Ok(()) => {
                 mixd(10);
-                if m != lt.n {
+                if !exit_judged {
+                    exit_not_judged += 1;
+                } else if expect_panic {
                     v("count-mismatch-not-reported-at-scope-exit", count_prop, format!("{what}: no panic"));
                 }
             }
@@ -322,21 +402,23 @@ pub fn execute(sc: &CountScenario, sh: &Shared) -> Value {
                 let msg = panic_msg(&p);
                 mixd(12);
                 exit_panics_seen += 1;
-                if m == lt.n {
+                if !exit_judged {
+                    exit_not_judged += 1;
+                } else if !expect_panic {
                     v("spurious-count-mismatch-at-scope-exit", count_prop7, format!("{what}: panicked with {msg:?}"));
                 } else {
                     let nums: Vec<usize> = msg.split(|c: char| !c.is_ascii_digit()).filter(|t| !t.is_empty()).filter_map(|t| t.parse().ok()).collect();
-                    let names_both = nums.contains(&lt.n) && nums.contains(&m);
+                    let names_both = nums.contains(&n_last) && nums.contains(&m) || lt.second.is_some() && nums.contains(&lt.n) && (nums.contains(&m) || nums.contains(&m_first));
                     if !names_both {
-                        v("scope-exit-message-names-wrong-numbers", count_prop7, format!("{what}: message {msg:?} does not name expected {} and actual {}", lt.n, m));
+                        v("scope-exit-message-names-wrong-numbers", count_prop7, format!("{what}: message {msg:?} does not name expected {} and actual {}", n_last, m));
                     }
                 }
             }
         }
         // originals are back
         sh.note(PH_CALL_AFTER, li as u64, 0, lt.exit_panic as u64);
-        if ct_add(41) != 42 {
-            v("call-after-scope-exit-not-original", &["C02"], format!("lifetime {li}: ct_add(41) != 42 after scope exit"));
+        if ct_add(41) != 42 || ct_add2(41) != 44 {
+            v("call-after-scope-exit-not-original", &["C02"], format!("lifetime {li}: ct_add(41) != 42 or ct_add2(41) != 44 after scope exit"));
         }
         if !viol.borrow().is_empty() {
             break;
@@ -363,6 +445,12 @@ pub fn execute(sc: &CountScenario, sh: &Shared) -> Value {
     let mut probes = serde_json::Map::new();
     if sc.lifetimes.len() > 1 {
         probes.insert("same_site_reused_across_lifetimes".into(), json!(sc.lifetimes.len() - 1));
+    }
+    if second_installs > 0 {
+        probes.insert("same_site_installed_twice_in_one_lifetime".into(), json!(second_installs));
+    }
+    if exit_not_judged > 0 {
+        probes.insert("scope_exit_verdict_not_judged_two_installations_share_a_counter".into(), json!(exit_not_judged));
     }
     json!({
         "violations": viol.into_inner(),
